@@ -18,6 +18,7 @@ T = {
  "C13": ("generated retry policies/commands x per-attempt outcome sequences; engine's retry decisions validated against a reference model + state-diff oracle per retried attempt", "Every observed retry must be allowed by the model (count, condition, workflow active); delays checked on offers; the retrying call may not publish, create records, stage successors or change status; later offers justified by the due ledger.", "upper-bound reading of the statement (declined retries are counted, not alarmed)"),
  "C14": ("generated definitions vs independent reference graph construction + metamorphic declaration-order permutations + serialisation round trip", "Composer output compared as sets of nodes/edges/keys/attributes with a reference built from the IR; every or 7 sampled permutations of the declaration order; round trip.", "the `splits` node attribute is not part of the statement and not compared"),
  "C16": ("round-trip / type-exact transport oracle over generated JSON values; before/after context comparison for purity; exhaustive access-form enumeration for hiding", "Generated values through every stage of a two-task pipeline in both languages and all reference forms with persist/restore; mutating-expression shapes for purity; exhaustive internal-name access forms.", "strings with expression/comment delimiters and lone surrogates are outside the domain"),
+ "C20": ("round-trip oracle for the inline parameter grammar + twin-definition differential (long form vs generated shorthand combination) with lock-step conducting", "Inline rendering of generated documented values parsed back type-exactly; twins composed, inspected and conducted in lock-step under one history with equal offers, contexts, errors, output.", "documented value grammar only; strings that are valid JSON object texts are not expressible inline as strings"),
  "C18": ("stateful generation + temporal invariant over consecutive persisted states", "Append-only / frozen-record invariant over serialize()['state'] after every call of generated histories.", "with-items rerun reuses its record by design"),
 }
 LATER = {}
